@@ -217,9 +217,10 @@ FeasibleAlways == pol = "auto" => /\ ~infeas
 
 \* strictly convex quadratic, no constraint active (the minimiser is strictly inside and, unless the
 \* policy drops the constraints, no evaluation since init came within a precision step of a bound),
-\* stopped by its own tolerance with budget to spare:
+\* stopped by its own tolerance having used at most a tenth of its budget (so that no share of the
+\* budget handed to an inner optimiser can have been binding either):
 \* within KConv/1000 * sqrt(tolerance * max(1,|f*|)) * max(1,|m|) of the minimiser (sup norm)
-ConvApplies == HasRep /\ obj.quad /\ obj.inact /\ ~touched /\ obj.conv /\ rep.tol /\ rep.nb < max
+ConvApplies == HasRep /\ obj.quad /\ obj.inact /\ ~touched /\ obj.conv /\ rep.tol /\ rep.nb * 10 <= max
 Converged == ConvApplies => rep.q <= KConv
 
 \* the point whose abscissa lies (weakly) between the other two has the lowest value
@@ -280,7 +281,7 @@ DFinish    == /\ phase = "Running"
               /\ ~(cnt + 1 < max /\ ~tol)
               /\ \E p \in {q \in Points : pol = "auto" => FeasPoint(q)} :
                     \* stopping by tolerance means being at the minimiser; a budget stop may end anywhere
-                    \E q \in {0} \cup (IF tol /\ cnt + 1 < max /\ ~touched THEN {} ELSE {KConv + 1}) :
+                    \E q \in {0} \cup (IF tol /\ (cnt + 1) * 10 <= max /\ ~touched THEN {} ELSE {KConv + 1}) :
                        Finish("ok", held, held, held, Seq1(p), cnt + 1, tol, q)
 DRaise     == /\ phase = "Running" /\ pol = "keep" /\ Constrained
               /\ Finish("raise:ConstraintException", NoRank, NoRank, NoRank, <<>>, cnt + 1, tol, 0)
